@@ -6,6 +6,7 @@ import (
 	"go/constant"
 	"go/token"
 	"go/types"
+	"os"
 	"regexp"
 	"sort"
 	"strconv"
@@ -827,6 +828,14 @@ func init() {
 			nCreate++
 			arg := w.expr(callArgs(call)[0])
 			c.Check(arg != dst, fk+" :: the file created for the repaired log is not the log itself", w.ipos(call), "a new file", "creates (truncates) "+arg+", the log that is being repaired: a crash during the rewrite leaves a short log that looks complete")
+			// whatever a crashed earlier repair left under that name must not survive behind the new content
+			trunc := w.isCall(call, "os#Create")
+			if !trunc && len(callArgs(call)) >= 2 {
+				if fl, isK := constInt(callArgs(call)[1]); isK && fl&int64(os.O_TRUNC) != 0 {
+					trunc = true
+				}
+			}
+			c.Check(trunc, fk+" :: the output file starts empty", w.ipos(call), "os.Create / O_TRUNC", "the output file is opened without truncation: bytes of an older, longer file stay behind the repaired records")
 		}
 		c.Check(nCreate == 1, fk+" :: output file creation found", w.pos(f.Pos()), "1", fmt.Sprintf("%d", nCreate))
 		nRen := 0
